@@ -306,10 +306,21 @@ Theorem C14_dispatch_independence_refuted : forall th ta,
   new_biv bworld0 None [("copula_type", JStr "independence")] = (mkBW true [] false, Ok None) /\
   from_dict_biv bworld0 None (biv_dict Independence th ta) = (mkBW true [] false, Err AttributeErr).
 Proof. exact dispatch_independence_refuted. Qed.
-(* Multivariate.from_dict on a vine dict: get_instance(type) calls VineCopula() without vine_type *)
-Theorem C14_dispatch_multivariate_vine_refuted : forall v d,
-  vine_to_dict v = Ok d -> multivariate_from_dict_vine d = Err TypeErr.
-Proof. exact dispatch_multivariate_vine_refuted. Qed.
+(* Multivariate.from_dict on a vine dict: dispatched to VineCopula.from_dict (since the F38 fix the recorded class is resolved
+   without being instantiated; before, VineCopula() was called without vine_type: TypeError) ... *)
+Theorem C14_dispatch_multivariate_vine : forall v d,
+  vine_to_dict v = Ok d -> multivariate_from_dict_vine d = vine_of_dict d.
+Proof. exact dispatch_multivariate_vine. Qed.
+(* ... hence the generic entry point round-trips every well-formed vine: same dict again, same trees, same type *)
+Theorem C14_generic_vine_roundtrip : forall v d v',
+  wf_vine v = true ->
+  (forall b, v_body v = Some b -> Forall good_s (vb_unis b)) ->
+  vine_to_dict v = Ok d -> multivariate_from_dict_vine d = Ok v' ->
+  vine_to_dict v' = Ok d /\ v_trees v' = v_trees v /\ v_type v' = v_type v.
+Proof.
+  intros v d v' Hw Hg Hd Hr. rewrite (dispatch_multivariate_vine v d Hd) in Hr.
+  exact (vine_to_dict_roundtrip v d v' Hw Hg Hd Hr).
+Qed.
 (* by design: to_dict does not carry random_state (pickle does) *)
 Theorem C14_roundtrip_drops_random_state :
   exists s0 s s', new_scipy FGaussian [] [("random_state", natj 42)] = Ok s0 /\
@@ -470,7 +481,7 @@ Example C14_nonvacuous_gm :
 Proof. exact gm_roundtrip_nonvacuous. Qed.
 Example C14_nonvacuous_vine : wf_vine example_vine = true /\
   exists d v', vine_to_dict example_vine = Ok d /\ vine_of_dict d = Ok v' /\ v_trees v' = v_trees example_vine /\
-               vine_to_dict v' = Ok d /\ pv_json_safe d = false /\ multivariate_from_dict_vine d = Err TypeErr.
+               vine_to_dict v' = Ok d /\ pv_json_safe d = false /\ multivariate_from_dict_vine d = Ok v'.
 Proof. exact example_vine_roundtrip. Qed.
 
 Print Assumptions C14_roundtrip_params_scipy.
@@ -495,7 +506,8 @@ Print Assumptions C14_roundtrip_observe_after_refit.
 Print Assumptions C14_roundtrip_gaussian_underflow_refuted.
 Print Assumptions C14_dispatch_subclass_entry.
 Print Assumptions C14_dispatch_independence_refuted.
-Print Assumptions C14_dispatch_multivariate_vine_refuted.
+Print Assumptions C14_dispatch_multivariate_vine.
+Print Assumptions C14_generic_vine_roundtrip.
 Print Assumptions C14_keys_fit.
 Print Assumptions C14_keys_gm.
 Print Assumptions C14_keys_edge.
